@@ -83,21 +83,35 @@ func checkC09(p *Prog, r *Result, tier string) {
 	}
 	r.check(foldOK, "FOLD", G.Name+" / answers are folded with acc = merge(acc, answer) from a nil accumulator", p.pos(foldAt), "range over the answer map; the accumulator is assigned only by the merge call", "fold shape not found or the accumulator is also assigned elsewhere: entries may reach the division without having been scaled")
 	// ---- DIV: after the fold, Rate and Usage of each entry are divided by the same entry's Weight
+	// (in the function itself, or in a helper of the package that is handed the folded map)
+	divFns := []*FuncNode{G}
+	for _, c := range G.callsDeep(func(f *types.Func) bool { return f.Pkg() == G.Pkg.Types }) {
+		if H := p.ByObj[G.Callee(c)]; H != nil && H.Body != nil && H != G && H != M && accObj != nil {
+			for _, a := range c.Args {
+				if G.objOf(a) == accObj {
+					divFns = append(divFns, H)
+				}
+			}
+		}
+	}
 	for _, f := range []string{"Rate", "Usage"} {
 		ok := false
 		var at ast.Node
-		G.inspectBody(func(n ast.Node) bool {
-			as, isA := n.(*ast.AssignStmt)
-			if !isA || as.Tok != token.QUO_ASSIGN || len(as.Lhs) != 1 {
+		for _, D := range divFns {
+			D := D
+			D.inspectBody(func(n ast.Node) bool {
+				as, isA := n.(*ast.AssignStmt)
+				if !isA || as.Tok != token.QUO_ASSIGN || len(as.Lhs) != 1 {
+					return true
+				}
+				l, ok1 := unparen(as.Lhs[0]).(*ast.SelectorExpr)
+				rr, ok2 := unparen(as.Rhs[0]).(*ast.SelectorExpr)
+				if ok1 && ok2 && l.Sel.Name == f && rr.Sel.Name == "Weight" && D.objOf(l.X) != nil && D.objOf(l.X) == D.objOf(rr.X) {
+					ok, at = true, as
+				}
 				return true
-			}
-			l, ok1 := unparen(as.Lhs[0]).(*ast.SelectorExpr)
-			rr, ok2 := unparen(as.Rhs[0]).(*ast.SelectorExpr)
-			if ok1 && ok2 && l.Sel.Name == f && rr.Sel.Name == "Weight" && G.objOf(l.X) != nil && G.objOf(l.X) == G.objOf(rr.X) {
-				ok, at = true, as
-			}
-			return true
-		})
+			})
+		}
 		r.check(ok, "DIV", fmt.Sprintf("%s / %s is divided by the entry's own weight sum", G.Name, f), p.pos(at), "info."+f+" /= info.Weight", f+" of the merged entry is not divided by that entry's Weight: the reported value is not the weighted average")
 	}
 	// ---- UN1: merge never returns a parameter
